@@ -121,9 +121,13 @@ LEVEL_TEXT = ("Machine-checked theorems about a Gallina model of the partial-sig
               "submission has happened as soon as the correct shares of a quorum of distinct committee members have "
               "arrived, in any order among any other traffic (generic in committee and quorum, with the n=3f+1/q=2f+1 "
               "corollary; 4/7/10/13 as evaluated examples); for the multi-root sync-committee-contribution duty the "
-              "liveness clause is refuted by a vm_compute witness, which reproduces on the real "
-              "SyncCommitteeAggregatorRunner (known finding P3). The model is tied to the code by running both on "
+              "liveness clause is refuted for the loop as it is in the tree (vm_compute witness, reproduces on the real "
+              "SyncCommitteeAggregatorRunner: known finding P3) and proved for the repaired loop "
+              "(C05_multi_root_liveness_repaired); which of the two loops is extracted and compared is read from the "
+              "source on every run (coq/Gen/RunnerConsts.v). The model is tied to the code by running both on "
               "the same histories and diffing error class, submissions, Finished and the full container after every message.")
 LEVEL_NOTE = ("Trusted: Coq kernel + vm_compute, extraction, OCaml/Go drivers, the abstraction share -> Good | Bad k "
               "(taken from the real verifier), the idealised threshold-crypto assumption. The runner is modelled from "
-              "the decided state on; how it gets there is C03's model. Multi-root liveness is NOT claimed (refuted, finding P3).")
+              "the decided state on; how it gets there is C03's model. Multi-root liveness is NOT claimed for the unchanged tree "
+              "(refuted, finding P3); it is claimed once work/fix-C05-P3.diff (or an equivalent repair recognised by "
+              "lib/props/runner_common.py) is in the tree.")
